@@ -285,7 +285,9 @@ fn suite_othernum(out: &mut Out, thorough: bool) {
     }
     // binary: results of pred / shl0 / succ are compared after strip (leading zeroes are allowed by the docs)
     let bm = if thorough { 70 } else { 40 };
-    for a in 0..=bm {
+    // plus numerals around byte and word boundaries of the encoder (into_binary walks the bits of a usize; numerals beyond 2^17 are C12's N-indexed suite - the oracles here decode through unary naturals)
+    let wide = [127usize, 128, 255, 256, 257, 511, 512, 1023, 4095, 4096, 65535, 65536, 65537, 131072];
+    for a in (0..=bm).chain(wide.into_iter()) {
         let b = |k| n("binary", k);
         run(out, "C14", "num_binary_succ", &nb::succ(), &[b(a)], &b(a + 1), &all, "strip");
         run(out, "C14", "num_binary_pred", &nb::pred(), &[b(a)], &b(a.saturating_sub(1)), &all, "strip");
